@@ -558,6 +558,48 @@ def formatTimestamp (ts : Nat) : Str :=
   (dayNames.getD (days % 7) []) ++ [44, 32] ++ pad2 d ++ [32] ++ (monthNames.getD (m - 1) []) ++ [32] ++ pad4 y ++ [32]
     ++ pad2 (secs / 3600) ++ [58] ++ pad2 (secs / 60 % 60) ++ [58] ++ pad2 (secs % 60) ++ ofAscii " GMT"
 
+/-! #### `format_timestamp` for time-tuple and `datetime.datetime` arguments
+
+The process time zone (`TZ`, `/etc/localtime`) is not an input of any of these functions: a naive `datetime` is read
+as UTC (`utctimetuple()` returns its fields unchanged), an aware one has `utcoffset()` subtracted. -/
+
+/-- `calendar.timegm((y, mo, d, h, mi, s, …))` for `y ≥ 1970` -/
+def timegm (y mo d h mi s : Nat) : Nat := daysFromCivil y mo d * 86400 + h * 3600 + mi * 60 + s
+
+/-- `format_timestamp(tuple_or_struct_time)` : `formatdate(calendar.timegm(t), usegmt=True)` -/
+def formatTimestampTuple (y mo d h mi s : Nat) : Str := formatTimestamp (timegm y mo d h mi s)
+
+/-- what `utctimetuple()` reads of a `datetime.datetime`: civil date, time of day (the microsecond field and `fold` are
+    not read) and `utcoffset()` in whole seconds — `none` for a naive object -/
+structure DateTime where
+  y : Nat
+  mo : Nat
+  d : Nat
+  h : Nat
+  mi : Nat
+  s : Nat
+  off : Option Int
+  deriving Repr, DecidableEq
+
+/-- `calendar.timegm(dt.utctimetuple())` (fields from 1970 on) -/
+def DateTime.timeNum (t : DateTime) : Int :=
+  match t.off with
+  | none => (timegm t.y t.mo t.d t.h t.mi t.s : Nat)
+  | some o => (timegm t.y t.mo t.d t.h t.mi t.s : Nat) - o
+
+/-- `format_timestamp(dt)`; wall-clock fields before 1970 and instants before the epoch are outside the model -/
+def formatTimestampDT (t : DateTime) : Except Err Str :=
+  if t.y < 1970 then .error .unmodelled
+  else if t.timeNum < 0 then .error .unmodelled
+  else .ok (formatTimestamp t.timeNum.toNat)
+
+/-- the `datetime` showing instant `ts` (seconds since the epoch) on a wall clock `off` seconds ahead of UTC
+    (`datetime.fromtimestamp(ts, timezone(timedelta(seconds=off)))`; `naive = true` drops the tzinfo of the UTC form).
+    `loc` is the wall-clock reading in seconds, `ts + off`, supplied as a natural number. -/
+def dateTimeAt (loc : Nat) (off : Option Int) : DateTime :=
+  let c := civilFromDays (loc / 86400)
+  { y := c.1, mo := c.2.1, d := c.2.2, h := loc % 86400 / 3600, mi := loc % 86400 / 60 % 60, s := loc % 86400 % 60, off := off }
+
 def indexOf? (x : Str) : List Str → Option Nat
   | [] => none
   | y :: ys => if x = y then some 0 else (indexOf? x ys).map (· + 1)
